@@ -1173,6 +1173,11 @@ fn oracle_c13(s: &mut Session, rep: &mut Report) {
     if io.zero_room_reads > 0 {
         rep.t3("C13", "poll_read was called with a buffer that has no room (spurious EOF)");
     }
+    // the end of the stream is the transport's to announce (a read that delivers nothing) — not a
+    // flush, a shutdown of the write direction or a codec swap
+    if s.cnt.borrow().n_decode_eof > 0 && !io.eof_answered {
+        rep.t3("C13", &format!("decode_eof was called ({} times) although the transport has not answered end of file: the read side was put at EOF by something else", s.cnt.borrow().n_decode_eof));
+    }
     if s.dead {
         rep.t3("C13", "poll_next panicked or did not return (watchdog)");
         return;
@@ -1641,6 +1646,55 @@ fn gen_c13(a: &Args, w: &mut dyn Write) {
             }
         });
     }
+    // (H) the two halves of one `Framed`: the Sink half is used (send / flush / close, shutdown of the
+    // WRITE direction completing at once or after a Pending) after 0..3 polls of the Stream half — the
+    // read side must go on exactly as if nothing had happened: the transport has not signalled EOF,
+    // what is buffered stays, what arrives later is decoded
+    {
+        const PROGRAMS: [&[&str]; 7] = [
+            &["close"],
+            &["send 61", "close"],
+            &["xclose"],
+            &["sscript p", "close", "close"],
+            &["send 61", "flush"],
+            &["fscript p", "send 0a", "close", "close"],
+            &["ready", "xflush", "close"],
+        ];
+        let mut k = 0usize;
+        for (sel, alphabet, shorter) in C13_ALPHABETS {
+            let extra = if alphabet.len() == 2 { 2 } else { 0 };
+            let lh = if thorough { 4 + extra - shorter } else { 3 + extra - shorter };
+            all_strings(alphabet, lh, &mut |s| {
+                if s.is_empty() {
+                    return;
+                }
+                for chunks in compositions(s) {
+                    let polls = chunks.len() + s.len() + 3;
+                    for before in 0..=chunks.len().min(3) {
+                        for variant in 0..3 {
+                            k += 1;
+                            let script = match variant {
+                                0 => script_with(&chunks, &[]),
+                                1 => script_with(&chunks, &[(k % (chunks.len() + 1), Rd::Pending)]),
+                                _ => script_with(&chunks, &[(k % (chunks.len() + 1), Rd::Err(kinds[k % kinds.len()]))]),
+                            };
+                            let prog = PROGRAMS[k % PROGRAMS.len()];
+                            id += 1;
+                            writeln!(w, "case c13-{}-halves-{id} codec={}", sel.name(), sel.name()).unwrap();
+                            writeln!(w, "script {}", script.iter().map(show_rd).collect::<Vec<_>>().join(" ")).unwrap();
+                            if before > 0 {
+                                writeln!(w, "drain {before}").unwrap();
+                            }
+                            for l in prog {
+                                writeln!(w, "{l}").unwrap();
+                            }
+                            writeln!(w, "drain {}", polls + 1).unwrap();
+                        }
+                    }
+                }
+            });
+        }
+    }
     // (G) bytes handed over in `read_buf` (`FramedParts::with_read_buf`, flags empty): every split of
     // every string into a handed-over prefix and a rest delivered by reads (every composition, a
     // Pending at every place)
@@ -1713,6 +1767,13 @@ fn gen_c13(a: &Args, w: &mut dyn Write) {
         }
         // codec swaps in the middle of the stream (the buffer may hold several frames, a partial frame,
         // more than 8 KiB)
+        // the Sink half in between (flush / close of the write direction): the read side goes on
+        if rng.chance(1, 3) {
+            writeln!(w, "drain {}", rng.range(0, (polls / 3).max(1))).unwrap();
+            for l in *rng.pick(&[&["close"][..], &["send 61", "xclose"][..], &["sscript p", "send n:100", "close", "close"][..], &["send 62", "flush"][..]]) {
+                writeln!(w, "{l}").unwrap();
+            }
+        }
         for _ in 0..swaps {
             writeln!(w, "drain {}", rng.range(0, (polls / 3).max(1))).unwrap();
             if rng.chance(1, 4) {
@@ -2092,14 +2153,24 @@ fn random_wconfig(rng: &mut Rng) -> WConfig {
     let sizes = (0..rng.range(1, 5)).map(|_| *rng.pick(size_pool)).collect();
     let acc_pool: &[usize] = &[0, 1, 2, 3, 100, 1023, 1024, 1025, 4096, 8191, 8192, 8193, 100000];
     let kinds = all_kinds();
-    let wscript = (0..rng.below(9))
-        .map(|_| match rng.below(10) {
-            0 => Wr::Pending,
-            1 => Wr::Zero,
-            2 => Wr::Err(*rng.pick(&kinds)),
-            _ => Wr::Accept(*rng.pick(acc_pool)),
-        })
-        .collect();
+    let wscript = if rng.chance(1, 4) {
+        // a trickling transport: 9..60 writes of 1..16 bytes each, now and then a Pending
+        (0..rng.range(9, 60))
+            .map(|_| match rng.below(14) {
+                0 => Wr::Pending,
+                _ => Wr::Accept(*rng.pick(&[1usize, 1, 2, 3, 7, 16])),
+            })
+            .collect()
+    } else {
+        (0..rng.below(9))
+            .map(|_| match rng.below(10) {
+                0 => Wr::Pending,
+                1 => Wr::Zero,
+                2 => Wr::Err(*rng.pick(&kinds)),
+                _ => Wr::Accept(*rng.pick(acc_pool)),
+            })
+            .collect()
+    };
     // the transport's own flush / shutdown: Pending (several times in a row, too) as often as Ok
     let fl = |rng: &mut Rng| {
         (0..rng.below(5))
@@ -2225,6 +2296,19 @@ fn gen_c14(a: &Args, w: &mut dyn Write) {
         },
         // more than HW in the buffer, a transport that takes a little and then blocks: still back-pressure
         WConfig { sel: Sel::Bytes, sizes: vec![9192, 3000], wscript: vec![Wr::Accept(100), Wr::Pending, Wr::Accept(900), Wr::Pending, Wr::Accept(10)], fscript: vec![Fl::Pending], sscript: vec![Fl::Ok], api: 0, parts: false, rscript: vec![] },
+        // a transport that takes one / a few bytes per write, 12..40 times in a row: one flush needs many
+        // partial writes and is complete only when the buffer is empty
+        WConfig { sel: Sel::Lines, sizes: vec![11, 30], wscript: vec![Wr::Accept(1); 14], fscript: vec![], sscript: vec![], api: 0, parts: false, rscript: vec![] },
+        WConfig {
+            sel: Sel::Len,
+            sizes: vec![40, 3, 254],
+            wscript: (0..40).map(|i| if i == 17 { Wr::Pending } else { Wr::Accept(1 + i % 3) }).collect(),
+            fscript: vec![Fl::Pending],
+            sscript: vec![Fl::Pending],
+            api: 2,
+            parts: false,
+            rscript: vec![],
+        },
     ];
     // (A0) codec swaps between the sends (the buffer is carried over, the encoder changes): every
     // sequence over {send, ready, flush, close, swap, mapio} up to length 4
